@@ -115,7 +115,7 @@ func atomicPrograms(r *rand.Rand, nops int) []*tprog {
 		"c := rg.next()\n\t\tx, y := c&8 != 0, c&16 != 0\n\t\tres, ok := false, false\n\t\top := \"\"\n\t\tswitch c % 4 {\n\t\tcase 0:\n\t\t\tres = v.Load()\n\t\t\top = \"Load\"\n\t\tcase 1:\n\t\t\tv.Store(x)\n\t\t\top = \"Store\"\n\t\tcase 2:\n\t\t\tres = v.Swap(x)\n\t\t\top = \"Swap\"\n\t\tcase 3:\n\t\t\tok = v.CompareAndSwap(y, x)\n\t\t\top = \"CAS\"\n\t\t}\n\t\tstate := v.Load()",
 		"d.wb(res)\n\t\td.wb(ok)\n\t\td.wb(state)", `op + " x=" + btoa(x) + " old=" + btoa(y) + " -> " + btoa(res) + " " + btoa(ok) + " state=" + btoa(state)`, nops/9+1, 1)
 	// Pointer[T] and unsafe.Pointer functions
-	t.pre.WriteString("var ptrs = []*int{nil, new(int), new(int), new(int), new(int)}\n\nfunc pidx(p *int) int {\n\tfor i, q := range ptrs {\n\t\tif p == q {\n\t\t\treturn i\n\t\t}\n\t}\n\treturn -1\n}\n\nfunc uidx(p unsafe.Pointer) int { return pidx((*int)(p)) }\n\n")
+	t.pre.WriteString("var ptrs = []*int{nil, new(int), new(int), new(int), new(int)}\n\nfunc pidx(p *int) int {\n\tfor i, q := range ptrs {\n\t\tif p == q {\n\t\t\treturn i\n\t\t}\n\t}\n\treturn -1\n}\n\n// a zero unsafe.Pointer and unsafe.Pointer((*int)(nil)) are both index 0 (their representations\n// differ under GopherJS; that is a conversion matter outside this property)\nfunc uidx(p unsafe.Pointer) int {\n\tif p == nil {\n\t\treturn 0\n\t}\n\treturn pidx((*int)(p))\n}\n\n")
 	ptrEval := func(load, store, swap, cas, wrap string) string {
 		return "c := rg.next()\n\t\tx, y := ptrs[(c>>8)%5], ptrs[(c>>16)%5]\n\t\tres, ok := -2, false\n\t\top := \"\"\n\t\tswitch c % 4 {\n\t\tcase 0:\n\t\t\tres = " + wrap + "(" + load + ")\n\t\t\top = \"Load\"\n\t\tcase 1:\n\t\t\t" + store + "\n\t\t\top = \"Store\"\n\t\tcase 2:\n\t\t\tres = " + wrap + "(" + swap + ")\n\t\t\top = \"Swap\"\n\t\tcase 3:\n\t\t\tok = " + cas + "\n\t\t\top = \"CAS\"\n\t\t}\n\t\tstate := " + wrap + "(" + load + ")"
 	}
